@@ -2225,3 +2225,631 @@ Module BlobEx.
     out = [V ka 1 [97;98;99]] /\ gc_of_log log = [(0, G 1 1000 500)].
   Proof. vm_compute. split; reflexivity. Qed.
 End BlobEx.
+
+(** * 14b. Reopen, and statements that are FALSE of the faithful model *)
+
+Lemma in_le_max x l : In x l -> x <= fold_right N.max 0 l.
+Proof.
+  induction l as [|y l IH]; [contradiction|]. cbn [fold_right].
+  intros [->|H]; [lia | specialize (IH H); lia].
+Qed.
+
+(** BlobTree::open restarts the blob file id counter above the files of the version: that
+    is above everything the version knows only if the statistics carry no entry for a
+    file outside the version *)
+Theorem reopen_counter_fresh v : gc_pruned v -> ids_below (reopen_counter v) v.
+Proof.
+  intros GP. unfold reopen_counter.
+  assert (forall bf, In bf (b_blobs v) -> bf_id bf < fold_right N.max 0 (map bf_id (b_blobs v)) + 1) as B.
+  { intros bf HI. pose proof (in_le_max _ _ (in_map bf_id _ _ HI)). lia. }
+  split.
+  - intros bf HI. destruct (b_blobs v) eqn:E; [contradiction|]. rewrite <- E in *. auto.
+  - intros f Hf. specialize (GP f Hf). apply in_map_iff in GP. destruct GP as (bf & <- & HI).
+    destruct (b_blobs v) eqn:E; [contradiction|]. rewrite <- E in *. auto.
+Qed.
+
+Ltac by_check := apply check_binv_g_iff; vm_compute; reflexivity.
+Ltac by_check_not := let H := fresh in intros H; apply check_binv_g_iff in H; vm_compute in H; discriminate.
+
+(** (1) [with_dropped] forgets [on_disk_bytes] when the file already has an entry
+    (version/mod.rs:445-449): the full invariant is NOT preserved by dropping tables; the
+    strongest true variant is [blob_drop_tables_inv] (len and bytes stay exact).
+    Witness: worker.rs blob_file_picking_simple continued by drop_range("b"..="b"):
+    statistics {0: (2, 2, 1)}, truth (2, 2, 2). *)
+Theorem blob_drop_tables_inv_refuted :
+  exists tids v, BInv v /\ frames_pos (b_blobs v) /\ gc_pruned v /\
+    ~ BInv (blob_drop_tables tids v) /\
+    gc_get (b_gc (blob_drop_tables tids v)) 0 = mkG 2 2 1 /\
+    garbage_of (blob_drop_tables tids v) 0 = mkG 2 2 2.
+Proof.
+  exists [2], BlobEx.p3. split; [by_check|]. split; [apply frames_pos_b_spec; reflexivity|].
+  split; [apply gc_pruned_b_spec; reflexivity|]. split; [by_check_not|].
+  split; vm_compute; reflexivity.
+Qed.
+
+(** (2) [with_dropped] does not prune the statistics: "no entry for files outside the
+    version" is NOT preserved, and [stale_bytes] then counts a file that is gone
+    (tests/blob_nuke_gc_stats.rs asserts exactly this state) *)
+Theorem gc_pruned_drop_refuted :
+  exists tids v, BInv v /\ gc_pruned v /\
+    BInv (blob_drop_tables tids v) /\ ~ gc_pruned (blob_drop_tables tids v) /\
+    stale_bytes (b_gc (blob_drop_tables tids v)) = 8 /\
+    sumN (map (fun bf => g_disk (garbage_of (blob_drop_tables tids v) (bf_id bf)))
+              (b_blobs (blob_drop_tables tids v))) = 0.
+Proof.
+  exists [0], (fst BlobEx.c1). split; [by_check|]. split; [apply gc_pruned_b_spec; reflexivity|].
+  split; [by_check|]. split.
+  - intros H. apply gc_pruned_b_spec in H. vm_compute in H. discriminate.
+  - split; vm_compute; reflexivity.
+Qed.
+
+(** (3) the stale entry meets a reused id: after [gc_pruned_drop_refuted]'s state is
+    reopened the counter restarts at 0, the next flush creates a NEW blob file 0 which
+    inherits the dead file's statistics, looks dead ([bytes = total_uncompressed]), and the
+    next merge removes it although the only entry of the tree points into it *)
+Theorem reopen_ghost_refuted :
+  exists v, BInv v /\ ~ gc_pruned v /\ reopen_counter v = 0 /\
+    let v1 := fst (blob_flush 4 1000 0 (reopen_counter v) (BlobEx.one 1)
+                              [BlobEx.V BlobEx.kanother 1 BlobEx.big] v) in
+    let v2 := blob_merge_standard 1000 true no_filter [1] (BlobEx.one 2) v1 in
+    ~ BInvG false v1 /\ stale_bytes (b_gc v1) = 8 /\ garbage_of v1 0 = gzero /\
+    b_blobs v2 = [] /\
+    map (resolve v2) (concat (map snd (b_tables v2))) = [None].
+Proof.
+  exists BlobEx.k2. split; [by_check|]. split.
+  - intros H. apply gc_pruned_b_spec in H. vm_compute in H. discriminate.
+  - split; [reflexivity|]. cbv zeta. split; [by_check_not|]. repeat split; vm_compute; reflexivity.
+Qed.
+
+(** (4) relocation of a file that a table outside the compaction still points into
+    (the eligibility check of pick_blob_files_to_rewrite left out): dangling pointer *)
+Theorem reloc_ineligible_refuted :
+  exists tids rw v, BInv v /\ frames_pos (b_blobs v) /\ ~ reloc_ok tids rw v /\
+    let v' := fst (blob_merge_relocating 1000 true no_filter tids rw 1000 1 (BlobEx.one 4) v) in
+    ~ BInvG false v' /\
+    map (fun t => map (resolve v') (snd t)) (b_tables v') = [[Some [98]]; [None]].
+Proof.
+  exists [2], [0], BlobEx.p3. split; [by_check|]. split; [apply frames_pos_b_spec; reflexivity|].
+  split.
+  - intros [_ H]. apply (H (mkP BlobEx.kc 0 80 1 1)); vm_compute; auto.
+  - cbv zeta. split; [by_check_not | vm_compute; reflexivity].
+Qed.
+
+(** (5) [is_dead] compares bytes only (vlog/blob_file/mod.rs:149-155): with
+    separation_threshold = 0 an empty value is separated too, a file whose remaining live
+    blobs are all empty looks dead and is removed while still referenced *)
+Definition z1 := blob_flush 0 1000 0 0 (BlobEx.one 0) [BlobEx.V BlobEx.ka 0 []; BlobEx.V BlobEx.kb 0 [1;2;3]] bv_empty.
+Definition z2 := blob_flush 0 1000 0 (snd z1) (BlobEx.one 1) [BlobEx.V BlobEx.kb 1 [4]] (fst z1).
+Definition z3 := blob_merge_standard 1000 true no_filter [0;1] (BlobEx.one 2) (fst z2).
+Theorem is_dead_zero_len_refuted :
+  BInv z3 /\ ~ frames_pos (b_blobs z3) /\
+  (exists bf, In bf (b_blobs z3) /\ is_dead (b_gc z3) bf = true /\
+              exists p, In p (vptrs z3) /\ pf p = bf_id bf) /\
+  let v' := blob_merge_standard 1000 true no_filter [2] (BlobEx.one 3) z3 in
+  ~ BInvG false v' /\ map (resolve v') (concat (map snd (b_tables v'))) = [None; Some [4]].
+Proof.
+  split; [by_check|]. split.
+  - intros H. apply frames_pos_b_spec in H. vm_compute in H. discriminate.
+  - split.
+    + exists (mkBf 0 [mkFr BlobEx.ka 0 0 [] 0; mkFr BlobEx.kb 0 39 [1;2;3] 3]).
+      split; [vm_compute; auto|]. split; [vm_compute; reflexivity|].
+      exists (mkP BlobEx.ka 0 0 0 0). split; [vm_compute; auto | reflexivity].
+    + cbv zeta. split; [by_check_not | vm_compute; reflexivity].
+Qed.
+
+(** (6) the scanner-faithful relocation: blobs are matched by walking the merged scan of
+    the rewritten files, which is ordered by the seqno stored in the blob; an ingested blob
+    carries seqno 0 while its table entry carries the global seqno (blob_tree/ingest.rs),
+    so the stream can ask for blobs in another order than the scan yields them and the
+    code's "vptr was not matched with blob" assertion fires -- while looking the blob up
+    at the pointer ([relocate]) is fine *)
+Definition scan_v : bversion :=
+  mkBV [(0, [mk_ind BlobEx.ka 10 1 0 4 4; mk_ind BlobEx.ka 5 0 0 4 4])]
+       [mkBf 0 [mkFr BlobEx.ka 5 0 [1;2;3;4] 4]; mkBf 1 [mkFr BlobEx.ka 0 0 [1;2;3;4] 4]] [].
+Theorem relocate_scan_refuted :
+  BInv scan_v /\ reloc_ok [0] [0;1] scan_v /\
+  relocate_scan 1000 [0;1] (scan_of (b_blobs scan_v) [0;1]) (bw_new 2)
+                (concat (map snd (b_tables scan_v))) = None /\
+  fst (relocate 1000 (b_blobs scan_v) [0;1] (bw_new 2) (concat (map snd (b_tables scan_v))))
+  = [mk_ind BlobEx.ka 10 2 0 4 4; mk_ind BlobEx.ka 5 2 43 4 4].
+Proof.
+  split; [by_check|]. split.
+  - split.
+    + intros f [<-|[<-|[]]]; vm_compute; auto.
+    + intros p [].
+  - split; vm_compute; reflexivity.
+Qed.
+
+(** when blob seqnos agree with the entries' the two agree *)
+Example relocate_scan_agrees :
+  let v := BlobEx.p4 in
+  let items := merge_input [3;4] v in
+  relocate_scan 1000 [0] (scan_of (b_blobs v) [0]) (bw_new 1) items
+  = Some (relocate 1000 (b_blobs v) [0] (bw_new 1) items).
+Proof. vm_compute. reflexivity. Qed.
+
+(** * 13. Transparency: reading through pointers *)
+
+Definition resolve_all (v : bversion) (l : list entry) : list entry := map (resolve_or_inline v) l.
+
+(** what the standard tree's flush writes for a tombstone (its value is empty anyway) *)
+Definition clear_tomb (e : entry) : entry :=
+  if is_tomb e then mkE (ukey e) (seq e) (ty e) [] else e.
+
+Lemma resolve_or_inline_not_ind v e : ty e <> Ind -> resolve_or_inline v e = e.
+Proof. unfold resolve_or_inline. destruct (ty e); congruence. Qed.
+
+Lemma separate_transp thr target lo v' : forall items w P ents w',
+  WInv (big_enough thr) lo w P ->
+  (forall e, In e items -> ty e <> Ind) ->
+  separate thr target w items = (ents, w') ->
+  (forall f o x, find_frame (bw_files w') f o = Some x -> find_frame (b_blobs v') f o = Some x) ->
+  resolve_all v' ents = map clear_tomb items.
+Proof.
+  induction items as [|e r IH]; intros w P ents w' WI NI HS MONO'; cbn [separate] in HS.
+  - inversion HS; subst. reflexivity.
+  - assert (forall x, In x r -> ty x <> Ind) as NI' by (intros x Hx; apply NI; now right).
+    pose proof (NI e (or_introl eq_refl)) as NIe.
+    unfold resolve_all in *. cbn [map]. unfold clear_tomb at 1.
+    destruct (is_tomb e) eqn:TB.
+    + destruct (separate thr target w r) as [o w2] eqn:HR. inversion HS; subst.
+      cbn [map]. f_equal; [|eapply IH; eauto].
+      apply resolve_or_inline_not_ind. exact NIe.
+    + destruct (thr <=? lenN (val e)) eqn:BIG.
+      * destruct (bw_write target w (ukey e) (seq e) (val e) (lenN (val e))) as [w1 h] eqn:HW.
+        destruct (separate thr target w1 r) as [o w2] eqn:HR. inversion HS; subst.
+        apply N.leb_le in BIG.
+        destruct (bw_write_inv (big_enough thr) lo target w P _ _ _ _ w1 h WI HW BIG)
+          as (Eh & FN & MONO1 & WI1).
+        destruct (separate_inv thr target lo r w1 _ o w' WI1 NI' HR) as (_ & MONO2 & _).
+        cbn [map]. f_equal; [|eapply IH; eauto].
+        unfold resolve_or_inline, resolve. cbn [ty mk_ind]. rewrite ptr_of_mk_ind. cbn [pf po ps].
+        rewrite (MONO' _ _ _ (MONO2 _ _ _ FN)). cbn [fr_key fr_val ukey mk_ind].
+        rewrite key_eqb_refl, N.eqb_refl. cbn [andb seq].
+        unfold is_tomb in TB. destruct e as [k s t vl]. cbn [ty ukey seq val] in *.
+        destruct t; try discriminate; try congruence. reflexivity.
+      * destruct (separate thr target w r) as [o w2] eqn:HR. inversion HS; subst.
+        cbn [map]. f_equal; [|eapply IH; eauto].
+        apply resolve_or_inline_not_ind. exact NIe.
+Qed.
+
+(** the tables a blob flush creates, read through their pointers, hold exactly what the
+    standard tree's flush of the same memtables writes *)
+Theorem blob_flush_transparent d thr target W nid split mem v :
+  BInvG d v -> ids_below nid v -> (forall e, In e mem -> ty e <> Ind) ->
+  split_ok split (b_tables v) ->
+  let v' := fst (blob_flush thr target W nid split mem v) in
+  exists newtabs, b_tables v' = newtabs ++ b_tables v /\
+    resolve_all v' (concat (map snd newtabs))
+    = map clear_tomb (fst (run_stream W false no_filter mem)).
+Proof.
+  intros I IB NI SP. unfold blob_flush.
+  destruct (run_stream W false no_filter mem) as [out lg] eqn:HR.
+  destruct (separate thr target (bw_new nid) out) as [ents w] eqn:HS.
+  unfold bw_finish. cbn [fst snd]. exists (split ents). split; [reflexivity|].
+  rewrite (proj1 (SP ents)).
+  assert (forall e, In e out -> ty e <> Ind) as NI'.
+  { intros e He. apply NI. eapply cstream_out_in; eauto. }
+  eapply (separate_transp thr target nid _ out (bw_new nid) []); [apply WInv_new | exact NI' | exact HS|].
+  cbn [b_blobs]. intros f o x FF.
+  destruct (separate_inv thr target nid out (bw_new nid) [] ents w (WInv_new _ nid) NI' HS)
+    as (_ & _ & P' & WI & _).
+  unfold find_frame in *. rewrite find_file_app.
+  destruct (find_file (bw_files w) f) as [bf|] eqn:F; [|discriminate].
+  rewrite (find_file_none (b_blobs v) f); [exact FF|].
+  intros C. apply in_map_iff in C. destruct C as (b & E & Hb).
+  apply find_file_some in F. destruct F as [Hbf Ef].
+  pose proof (wi_ids _ _ _ _ WI bf Hbf) as [G _]. pose proof (proj1 IB b Hb). lia.
+Qed.
+
+(** the stream commutes with any entry map that keeps user key, seqno and the tombstone
+    class -- as long as no weak tombstone is involved (the weak-tombstone rule looks at
+    [is_value] of the entry below, which resolution changes) *)
+Lemma cstream_map (r : entry -> entry) W evict :
+  (forall e, ukey (r e) = ukey e /\ seq (r e) = seq e /\ is_tomb (r e) = is_tomb e /\
+             is_strong_tomb (r e) = is_strong_tomb e /\ is_weak_tomb (r e) = is_weak_tomb e) ->
+  forall l dr, (forall e, In e l -> is_weak_tomb e = false) ->
+  cstream W evict no_filter dr (map r l)
+  = (map r (fst (cstream W evict no_filter dr l)), map r (snd (cstream W evict no_filter dr l))).
+Proof.
+  intros HR. induction l as [|e rest IH]; intros dr NW; [reflexivity|].
+  assert (forall x, In x rest -> is_weak_tomb x = false) as NW' by (intros x Hx; apply NW; now right).
+  destruct (HR e) as (Ek & Es & Et & Est & Ew).
+  pose proof (NW e (or_introl eq_refl)) as We.
+  cbn [map cstream].
+  assert (draining evict dr (r e) = draining evict dr e) as ->.
+  { unfold draining. now rewrite Ek, Ew. }
+  destruct (draining evict dr e).
+  - rewrite (IH _ NW'). destruct (cstream W evict no_filter (after_drop dr) rest) as [o d]. reflexivity.
+  - assert (apply_filter no_filter (r e) = (Some (r e), [])) as ->
+      by (unfold apply_filter, no_filter; destruct (is_tomb (r e)); reflexivity).
+    assert (apply_filter no_filter e = (Some e, [])) as ->
+      by (unfold apply_filter, no_filter; destruct (is_tomb e); reflexivity).
+    destruct rest as [|p rest'].
+    + cbn [map]. rewrite Et. destruct (is_tomb e && evict); reflexivity.
+    + cbn [map]. destruct (HR p) as (Pk & Ps & _). rewrite Ek, Pk, Ps, Et, Est, Ew, We.
+      rewrite !andb_false_r.
+      change (r p :: map r rest') with (map r (p :: rest')).
+      destruct (key_ltb (ukey e) (ukey p)).
+      * rewrite (IH _ NW'). destruct (cstream W evict no_filter NoDrain (p :: rest')) as [o d].
+        cbn [fst snd app]. destruct (is_tomb e && evict); reflexivity.
+      * destruct (seq p <? W).
+        -- destruct (is_strong_tomb e && evict).
+           ++ rewrite (IH _ NW'). destruct (cstream W evict no_filter (Drain (ukey e)) (p :: rest')) as [o d].
+              reflexivity.
+           ++ rewrite (IH _ NW'). destruct (cstream W evict no_filter (Drain (ukey e)) (p :: rest')) as [o d].
+              reflexivity.
+        -- rewrite (IH _ NW'). destruct (cstream W evict no_filter NoDrain (p :: rest')) as [o d].
+           reflexivity.
+Qed.
+
+Lemma resolve_or_inline_class v e :
+  ukey (resolve_or_inline v e) = ukey e /\ seq (resolve_or_inline v e) = seq e /\
+  is_tomb (resolve_or_inline v e) = is_tomb e /\
+  is_strong_tomb (resolve_or_inline v e) = is_strong_tomb e /\
+  is_weak_tomb (resolve_or_inline v e) = is_weak_tomb e.
+Proof.
+  unfold resolve_or_inline. destruct (ty e) eqn:T; try (repeat split; reflexivity).
+  destruct (resolve v e); [|repeat split; reflexivity].
+  unfold is_tomb, is_strong_tomb, is_weak_tomb. cbn [ukey seq ty]. rewrite T. repeat split; reflexivity.
+Qed.
+
+Lemma resolve_same_file v v' e p :
+  ptr_of e = Some p -> find_file (b_blobs v') (pf p) = find_file (b_blobs v) (pf p) ->
+  resolve v' e = resolve v e.
+Proof. intros PE H. unfold resolve, find_frame. rewrite PE, H. reflexivity. Qed.
+
+Lemma in_table_ptr v t e p :
+  In t (b_tables v) -> In e (snd t) -> ptr_of e = Some p -> In p (vptrs v).
+Proof.
+  intros Ht He PE. rewrite vptrs_tptrs. apply in_tptrs. exists t. split; [exact Ht|].
+  apply in_ptrs. eauto.
+Qed.
+
+(** a standard (pass-through) merge without filter: the new tables, read through their
+    pointers in the new version, hold what the standard tree's merge of the resolved input
+    holds -- provided no weak tombstone takes part *)
+Theorem blob_merge_transparent d W evict tids split v :
+  BInvG d v -> frames_pos (b_blobs v) -> split_ok split (b_tables v) -> tids_known tids v = true ->
+  (forall e, In e (merge_input tids v) -> is_weak_tomb e = false) ->
+  let v' := blob_merge_standard W evict no_filter tids split v in
+  exists newtabs, b_tables v' = newtabs ++ rest_tables tids (b_tables v) /\
+    resolve_all v' (concat (map snd newtabs))
+    = fst (run_stream W evict no_filter (resolve_all v (merge_input tids v))).
+Proof.
+  intros I POS SP KN NW v'.
+  pose proof (blob_merge_standard_blobs W evict no_filter tids split v KN) as EB. fold v' in EB.
+  unfold v', blob_merge_standard in *. rewrite KN in *. cbn [negb] in *.
+  destruct (run_stream W evict no_filter (merge_input tids v)) as [out log] eqn:HR.
+  exists (split out). split; [reflexivity|]. rewrite (proj1 (SP out)).
+  unfold run_stream, resolve_all in *.
+  rewrite (cstream_map (resolve_or_inline v) W evict (resolve_or_inline_class v) _ _ NW), HR.
+  cbn [fst snd]. apply map_ext_in. intros e He.
+  pose proof (cstream_out_in _ _ _ _ _ HR e He) as Hl.
+  destruct (merge_input_in _ _ _ Hl) as (t & Ht & Het).
+  unfold resolve_or_inline. destruct (ty e) eqn:T; try reflexivity.
+  pose proof (bi_wf _ _ I t e Ht Het) as WF. unfold wf_ind in WF. rewrite T in WF.
+  destruct (ptr_of e) as [p|] eqn:PE; [|discriminate].
+  rewrite (resolve_same_file v _ e p PE); [reflexivity|].
+  pose proof (in_table_ptr v t e p Ht Het PE) as Hp.
+  pose proof (bi_res _ _ I p Hp) as RS. apply presolve_spec in RS.
+  destruct RS as (bf & fr & F & _). rewrite F, EB.
+  rewrite (find_file_filter (fun i => negb (memN i (dead_ids v)))).
+  destruct (memN (pf p) (dead_ids v)) eqn:MD; [|exact F]. exfalso.
+  apply memN_In, in_dead_ids in MD. destruct MD as (b & Hb & DD & E).
+  apply (dead_no_ptr d v b p I POS Hb DD Hp). now symmetry.
+Qed.
+
+(** ... and FALSE with a weak tombstone directly above a separated value: the stream's
+    weak-tombstone rule tests [peeked.value_type == Value] (stream.rs), an indirection is
+    not a [Value], so the blob tree keeps the weak tombstone (and counts the blob as
+    garbage) where the standard tree drops the pair *)
+Definition wt1 := blob_flush 2 1000 0 0 (BlobEx.one 0) [BlobEx.V BlobEx.ka 1 [7;7;7]] bv_empty.
+Definition wt2 := blob_flush 2 1000 0 (snd wt1) (BlobEx.one 1) [BlobEx.Wt BlobEx.ka 2] (fst wt1).
+Theorem blob_transparent_refuted :
+  BInv (fst wt2) /\ frames_pos (b_blobs (fst wt2)) /\
+  let v := fst wt2 in
+  let v' := blob_merge_standard 10 false no_filter [0;1] (BlobEx.one 2) v in
+  resolve_all v' (concat (map snd (b_tables v'))) = [BlobEx.Wt BlobEx.ka 2] /\
+  fst (run_stream 10 false no_filter (resolve_all v (merge_input [0;1] v))) = [] /\
+  BInv v'.
+Proof.
+  split; [by_check|]. split; [apply frames_pos_b_spec; reflexivity|]. cbv zeta.
+  split; [vm_compute; reflexivity|]. split; [vm_compute; reflexivity | by_check].
+Qed.
+
+(** every pointer entry of the version reads as a value: the bytes of a blob written for
+    its user key, of the recorded size *)
+Theorem blob_resolves d v t e :
+  BInvG d v -> In t (b_tables v) -> In e (snd t) -> ty e = Ind ->
+  exists bf fr, In bf (b_blobs v) /\ In fr (frames bf) /\ fr_key fr = ukey e /\
+    resolve v e = Some (fr_val fr) /\
+    resolve_or_inline v e = mkE (ukey e) (seq e) Value (fr_val fr).
+Proof.
+  intros I Ht He T. pose proof (bi_wf _ _ I t e Ht He) as WF. unfold wf_ind in WF. rewrite T in WF.
+  destruct (ptr_of e) as [p|] eqn:PE; [|discriminate].
+  pose proof (bi_res _ _ I p (in_table_ptr v t e p Ht He PE)) as RS.
+  apply presolve_spec in RS. destruct RS as (bf & fr & F & Ff & Ek & Es & _).
+  destruct (ptr_of_ind _ _ PE) as (_ & Pk & _).
+  assert (resolve v e = Some (fr_val fr)) as R.
+  { unfold resolve, find_frame. rewrite PE, F, Ff, Ek, Pk, key_eqb_refl, Es, N.eqb_refl. reflexivity. }
+  exists bf, fr. apply find_file_some in F. apply find_frame_in in Ff.
+  repeat split; try tauto; try congruence.
+  unfold resolve_or_inline. now rewrite T, R.
+Qed.
+
+Lemma relocate_transp Fp target v rw lo v' : forall items w P out' w',
+  WInv Fp lo w P ->
+  (forall p, In p (ptrs items) -> memN (pf p) rw = true -> presolve (b_blobs v) p = true) ->
+  (forall f o fr, find_frame (b_blobs v) f o = Some fr ->
+     forall k s off, Fp (mkFr k s off (fr_val fr) (fr_disk fr))) ->
+  relocate target (b_blobs v) rw w items = (out', w') ->
+  (forall f o x, find_frame (bw_files w') f o = Some x -> find_frame (b_blobs v') f o = Some x) ->
+  (forall e p, In e items -> ptr_of e = Some p -> keep_ptr rw p = true -> resolve v' e = resolve v e) ->
+  resolve_all v' out' = resolve_all v items.
+Proof.
+  induction items as [|e r IH]; intros w P out' w' WI RS FPb HR MONO' KEEP; cbn [relocate] in HR.
+  - inversion HR; subst. reflexivity.
+  - assert (forall q, In q (ptrs r) -> memN (pf q) rw = true -> presolve (b_blobs v) q = true) as RS'.
+    { intros q Hq. apply RS. rewrite ptrs_cons. destruct (ptr_of e); [now right | exact Hq]. }
+    assert (forall x p, In x r -> ptr_of x = Some p -> keep_ptr rw p = true -> resolve v' x = resolve v x)
+      as KEEP' by (intros x p Hx; apply KEEP; now right).
+    assert (forall o w2, relocate target (b_blobs v) rw w r = (o, w2) -> (e :: o, w2) = (out', w') ->
+            resolve_or_inline v' e = resolve_or_inline v e ->
+            resolve_all v' out' = resolve_all v (e :: r)) as PASS.
+    { intros o w2 HR2 EQ RE. inversion EQ; subst. unfold resolve_all. cbn [map]. rewrite RE. f_equal.
+      eapply (IH w P o w'); eauto. }
+    destruct (ptr_of e) as [p|] eqn:PE.
+    2:{ destruct (relocate target (b_blobs v) rw w r) as [o w2] eqn:HR2.
+        apply (PASS o w2 eq_refl HR). unfold resolve_or_inline, resolve. now rewrite PE. }
+    destruct (memN (pf p) rw) eqn:MR.
+    2:{ destruct (relocate target (b_blobs v) rw w r) as [o w2] eqn:HR2.
+        apply (PASS o w2 eq_refl HR). unfold resolve_or_inline.
+        rewrite (KEEP e p (or_introl eq_refl) PE); [reflexivity|]. unfold keep_ptr. now rewrite MR. }
+    assert (presolve (b_blobs v) p = true) as PR.
+    { apply RS; [|exact MR]. rewrite ptrs_cons, PE. now left. }
+    pose proof PR as PR'. unfold presolve in PR'.
+    destruct (find_frame (b_blobs v) (pf p) (po p)) as [fr|] eqn:FF; [|discriminate].
+    apply andb_true_iff in PR'. destruct PR' as [PR' _]. apply andb_true_iff in PR'.
+    destruct PR' as [KE SZ]. apply N.eqb_eq in SZ. apply key_eqb_eq in KE.
+    destruct (bw_write target w (ukey e) (seq e) (fr_val fr) (fr_disk fr)) as [w1 h] eqn:HW.
+    destruct (relocate target (b_blobs v) rw w1 r) as [o w2] eqn:HR2. inversion HR; subst.
+    destruct (bw_write_inv Fp lo target w P _ _ _ _ w1 h WI HW) as (Eh & FN & _ & WI1).
+    { eapply FPb. exact FF. }
+    destruct (relocate_inv Fp target (b_blobs v) rw lo r w1 _ o w' WI1 RS' FPb HR2) as (_ & Nn & WI' & _).
+    assert (forall f o' x, find_frame (bw_files w1) f o' = Some x -> find_frame (bw_files w') f o' = Some x)
+      as MONO2.
+    { (* lookups that succeed in a writer's files keep succeeding: each is a resolved pointer *)
+      clear - HR2. revert w1 o w' HR2. induction r as [|x r IHr]; intros w1 o w' HR2 f o' y Hy;
+        cbn [relocate] in HR2.
+      - inversion HR2; subst. exact Hy.
+      - destruct (ptr_of x) as [q|].
+        + destruct (memN (pf q) rw).
+          * destruct (find_frame (b_blobs v) (pf q) (po q)) as [fq|].
+            -- destruct (bw_write target w1 (ukey x) (seq x) (fr_val fq) (fr_disk fq)) as [w3 hh] eqn:HW3.
+               destruct (relocate target (b_blobs v) rw w3 r) as [o3 w4] eqn:HR3. inversion HR2; subst.
+               eapply IHr; [exact HR3|]. unfold bw_write in HW3.
+               destruct (target <=? _); inversion HW3; subst; cbn [bw_files]; now apply find_frame_add_mono.
+            -- destruct (relocate target (b_blobs v) rw w1 r) as [o3 w4] eqn:HR3. inversion HR2; subst.
+               eapply IHr; eauto.
+          * destruct (relocate target (b_blobs v) rw w1 r) as [o3 w4] eqn:HR3. inversion HR2; subst.
+            eapply IHr; eauto.
+        + destruct (relocate target (b_blobs v) rw w1 r) as [o3 w4] eqn:HR3. inversion HR2; subst.
+          eapply IHr; eauto. }
+    unfold resolve_all. cbn [map]. f_equal; [|eapply (IH w1 _ o w'); eauto].
+    destruct (ptr_of_ind _ _ PE) as (T & Pk & _).
+    unfold resolve_or_inline, resolve. cbn [ty mk_ind]. rewrite T, ptr_of_mk_ind, PE, FF. cbn [pf po ps].
+    rewrite (MONO' _ _ _ (MONO2 _ _ _ FN)). cbn [fr_key fr_val ukey seq mk_ind].
+    rewrite key_eqb_refl, KE, Pk, key_eqb_refl, SZ, N.eqb_refl. reflexivity.
+Qed.
+
+(** relocation changes no byte a reader sees: as [blob_merge_transparent], with blob files
+    being rewritten on the way *)
+Theorem blob_merge_relocating_transparent d W evict tids rw target nid split v :
+  BInvG d v -> frames_pos (b_blobs v) -> ids_below nid v -> split_ok split (b_tables v) ->
+  reloc_ok tids rw v -> tids_known tids v = true ->
+  (forall e, In e (merge_input tids v) -> is_weak_tomb e = false) ->
+  let v' := fst (blob_merge_relocating W evict no_filter tids rw target nid split v) in
+  exists newtabs, b_tables v' = newtabs ++ rest_tables tids (b_tables v) /\
+    resolve_all v' (concat (map snd newtabs))
+    = fst (run_stream W evict no_filter (resolve_all v (merge_input tids v))).
+Proof.
+  intros I POS IB SP [RW1 RW2] KN NW v'. unfold v', blob_merge_relocating. rewrite KN. cbn [negb].
+  destruct (run_stream W evict no_filter (merge_input tids v)) as [out log] eqn:HR.
+  destruct (relocate target (b_blobs v) rw (bw_new nid) out) as [out' w] eqn:HL.
+  unfold bw_finish. cbn [fst snd]. exists (split out'). split; [reflexivity|].
+  rewrite (proj1 (SP out')).
+  set (v2 := with_merge v tids (split out') (gc_of_log log) (bw_files w) (rw ++ dead_ids v)).
+  assert (forall e p, In e out -> ptr_of e = Some p -> In p (vptrs v)) as OV.
+  { intros e p He PE. pose proof (cstream_out_in _ _ _ _ _ HR e He) as Hl.
+    destruct (merge_input_in _ _ _ Hl) as (t & Ht & Het). eapply in_table_ptr; eauto. }
+  assert (forall p, In p (ptrs out) -> memN (pf p) rw = true -> presolve (b_blobs v) p = true) as RS.
+  { intros p Hp _. apply in_ptrs in Hp. destruct Hp as (e & He & PE). apply (bi_res _ _ I p). eauto. }
+  assert (forall f o fr, find_frame (b_blobs v) f o = Some fr ->
+            forall k s off, pos_val (mkFr k s off (fr_val fr) (fr_disk fr))) as FPb.
+  { intros f o fr FF k s off. unfold pos_val. cbn [fr_val].
+    destruct (find_frame_In _ _ _ _ FF) as (bf & Hb & _ & Hf & _). eapply POS; eauto. }
+  destruct (relocate_inv pos_val target (b_blobs v) rw nid out (bw_new nid) [] out' w
+              (WInv_new _ nid) RS FPb HL) as (_ & Nn & WI & _).
+  assert (b_blobs v2 = filter (fun bf => negb (memN (bf_id bf) (rw ++ dead_ids v))) (b_blobs v ++ bw_files w))
+    as EB by apply with_merge_blobs.
+  assert (forall f, In f (rw ++ dead_ids v) -> f < nid) as DRlt.
+  { intros f Hf. apply in_app_or in Hf. destruct Hf as [Hf|Hf].
+    - specialize (RW1 f Hf). apply in_map_iff in RW1. destruct RW1 as (bf & <- & HI). apply (proj1 IB bf HI).
+    - eapply dead_ids_below; eauto. }
+  rewrite (relocate_transp pos_val target v rw nid v2 out (bw_new nid) [] out' w (WInv_new _ nid) RS FPb HL).
+  - unfold run_stream, resolve_all in *.
+    rewrite (cstream_map (resolve_or_inline v) W evict (resolve_or_inline_class v) _ _ NW), HR.
+    reflexivity.
+  - (* the new files are found in the new version *)
+    intros f o x FF. unfold find_frame in *.
+    destruct (find_file (bw_files w) f) as [bf|] eqn:F; [|discriminate].
+    pose proof (find_file_some _ _ _ F) as [Hbf Ef].
+    pose proof (wi_ids _ _ _ _ WI bf Hbf) as [G _].
+    rewrite EB, (find_file_filter (fun i => negb (memN i (rw ++ dead_ids v)))).
+    destruct (memN f (rw ++ dead_ids v)) eqn:MD.
+    + apply memN_In, DRlt in MD. lia.
+    + cbn [negb]. rewrite find_file_app, (find_file_none (b_blobs v) f), F; [exact FF|].
+      intros C. apply in_map_iff in C. destruct C as (b & E & Hb). pose proof (proj1 IB b Hb). lia.
+  - (* pointers that are not relocated resolve as before *)
+    intros e p He PE KP. apply (resolve_same_file v v2 e p PE).
+    pose proof (OV e p He PE) as Hp. pose proof (bi_res _ _ I p Hp) as PR.
+    apply presolve_spec in PR. destruct PR as (bf & fr & F & _).
+    rewrite F, EB, (find_file_filter (fun i => negb (memN i (rw ++ dead_ids v)))).
+    destruct (memN (pf p) (rw ++ dead_ids v)) eqn:MD.
+    + exfalso. apply memN_In, in_app_or in MD. destruct MD as [MD|MD].
+      * unfold keep_ptr in KP. apply negb_true_iff, memN_false in KP. contradiction.
+      * apply in_dead_ids in MD. destruct MD as (b & Hb & DD & E).
+        apply (dead_no_ptr d v b p I POS Hb DD Hp). now symmetry.
+    + cbn [negb]. now rewrite find_file_app, F.
+Qed.
+
+(** * 11. Compaction filter with key-value separation *)
+
+Lemma ptr_of_mark k s v : ptr_of (mkE k s Ind (mark v)) = None.
+Proof. reflexivity. Qed.
+
+Lemma unmark_some h v : unmark h = Some v -> ty h = Ind /\ val h = mark v.
+Proof.
+  unfold unmark, mark. destruct (ty h); try discriminate.
+  destruct (val h) as [|[|?] [|[|?] [|[|?] [|[|?] [|[|?] r]]]]]; try discriminate.
+  intros H. inversion H. auto.
+Qed.
+
+Lemma unmark_no_ptr h v : unmark h = Some v -> ptr_of h = None.
+Proof.
+  intros H. apply unmark_some in H. destruct H as [T V]. unfold ptr_of. now rewrite T, V.
+Qed.
+
+Lemma wf_ind_unmark e : ty e = Ind -> wf_ind e = true -> unmark e = None.
+Proof.
+  intros T WF. unfold wf_ind in WF. rewrite T in WF.
+  destruct (unmark e) as [v|] eqn:U; [|reflexivity].
+  now rewrite (unmark_no_ptr _ _ U) in WF.
+Qed.
+
+Lemma adapt_noptr uf : flt_noptr (adapt uf).
+Proof.
+  intros e t v. unfold adapt. destruct (uf e); try discriminate; intros H; inversion H; reflexivity.
+Qed.
+
+Definition ow_files (ow : option bwriter) : list blobfile :=
+  match ow with Some w => bw_files w | None => [] end.
+Definition ow_next (nid : N) (ow : option bwriter) : N :=
+  match ow with Some w => bw_next w | None => nid end.
+Definition OWInv (thr nid : N) (ow : option bwriter) (P : list ptr) : Prop :=
+  match ow with Some w => WInv (big_enough thr) nid w P | None => P = [] end.
+
+Lemma fsep_inv thr target nid : forall items ow P out' ow',
+  OWInv thr nid ow P ->
+  fsep thr target nid ow items = (out', ow') ->
+  (forall e, In e out' -> (In e items /\ unmark e = None) \/ wf_ind e = true) /\
+  exists Nn, OWInv thr nid ow' (Nn ++ P) /\ Permutation (ptrs out') (Nn ++ ptrs items).
+Proof.
+  induction items as [|h r IH]; intros ow P out' ow' OI HS; cbn [fsep] in HS.
+  - inversion HS; subst. split; [intros e []|]. exists []. split; [exact OI | apply Permutation_refl].
+  - destruct (unmark h) as [v|] eqn:U.
+    + rewrite ptrs_cons, (unmark_no_ptr _ _ U).
+      destruct (lenN v <? thr) eqn:SM.
+      * destruct (fsep thr target nid ow r) as [o ow2] eqn:HR. inversion HS; subst.
+        destruct (IH ow P o ow' OI HR) as (WF & Nn & OI' & PP). split.
+        -- intros e [<-|He]; [right; reflexivity|]. destruct (WF e He) as [[A B]|A]; [left; split; [now right | exact B] | now right].
+        -- exists Nn. split; [exact OI'|]. rewrite ptrs_cons. exact PP.
+      * apply N.ltb_ge in SM.
+        set (w := match ow with Some w => w | None => bw_new nid end) in *.
+        assert (WInv (big_enough thr) nid w P) as WI.
+        { unfold w. destruct ow as [w0|]; [exact OI|]. cbn in OI. subst P. apply WInv_new. }
+        destruct (bw_write target w (ukey h) (seq h) v (lenN v)) as [w1 hd] eqn:HW.
+        destruct (fsep thr target nid (Some w1) r) as [o ow2] eqn:HR. inversion HS; subst.
+        destruct (bw_write_inv (big_enough thr) nid target w P _ _ _ _ w1 hd WI HW SM)
+          as (_ & _ & _ & WI1).
+        destruct (IH (Some w1) _ o ow' WI1 HR) as (WF & Nn & OI' & PP). split.
+        -- intros e [<-|He]; [right; reflexivity|]. destruct (WF e He) as [[A B]|A]; [left; split; [now right | exact B] | now right].
+        -- exists (Nn ++ [mkP (ukey h) (fst hd) (snd hd) (lenN v) (lenN v)]). split.
+           ++ now rewrite <- app_assoc.
+           ++ rewrite ptrs_cons, ptr_of_mk_ind, <- app_assoc. cbn [app]. now apply Permutation_cons_app.
+    + destruct (fsep thr target nid ow r) as [o ow2] eqn:HR. inversion HS; subst.
+      destruct (IH ow P o ow' OI HR) as (WF & Nn & OI' & PP). split.
+      * intros e [<-|He]; [left; split; [now left | exact U]|].
+        destruct (WF e He) as [[A B]|A]; [left; split; [now right | exact B] | now right].
+      * exists Nn. split; [exact OI'|]. rewrite !ptrs_cons. destruct (ptr_of h) as [p|]; [|exact PP].
+        now apply Permutation_cons_app.
+Qed.
+
+Theorem blob_merge_filter_inv d W evict uf thr target nid tids split v :
+  BInvG d v -> frames_pos (b_blobs v) -> ids_below nid v -> split_ok split (b_tables v) ->
+  let r := blob_merge_filter W evict uf thr target nid tids split v in
+  BInvG d (fst r) /\ ids_below (snd r) (fst r) /\ nid <= snd r /\
+  (0 < thr -> frames_pos (b_blobs (fst r))) /\ (gc_pruned v -> gc_pruned (fst r)).
+Proof.
+  intros I POS IB SP r. unfold r, blob_merge_filter.
+  destruct (negb (tids_known tids v));
+    [cbn [fst snd]; split; [exact I|]; split; [exact IB|]; split; [lia|]; split; auto|].
+  destruct (run_stream W evict (adapt uf) (merge_input tids v)) as [out log] eqn:HR.
+  destruct (fsep thr target nid None out) as [out' ow] eqn:HF.
+  set (R := rest_tables tids (b_tables v)).
+  pose proof (stream_ptrs _ _ _ _ _ _ (adapt_noptr uf) HR) as PS.
+  assert (Permutation (vptrs v) (ptrs log ++ [] ++ (ptrs out ++ tptrs R))) as PV.
+  { eapply perm_trans; [apply (vptrs_split tids v)|]. fold R. cbn [app].
+    eapply perm_trans; [apply Permutation_app_tail; apply Permutation_sym; apply merge_input_ptrs|].
+    eapply perm_trans; [apply Permutation_app_tail; exact PS|].
+    rewrite <- app_assoc. apply Permutation_app_swap_app. }
+  destruct (fsep_inv thr target nid out None [] out' ow eq_refl HF) as (WF & Nn & OI & PP).
+  rewrite app_nil_r in OI.
+  assert ((let '(extra, nid') := match ow with Some w => bw_finish w | None => ([], nid) end in
+           (with_merge v tids (split out') (gc_of_log log) extra (dead_ids v), nid'))
+          = (with_merge v tids (split out') (gc_of_log log) (ow_files ow) (dead_ids v), ow_next nid ow)) as ->
+    by (destruct ow; reflexivity).
+  cbn [fst snd].
+  (* facts about the filter's blob files *)
+  assert (NoDup (map bf_id (ow_files ow)) /\
+          (forall bf, In bf (ow_files ow) -> nid <= bf_id bf /\ bf_id bf < ow_next nid ow /\ file_ok_P bf) /\
+          (forall p, In p Nn -> presolve (ow_files ow) p = true) /\ NoDup (map tgt Nn) /\
+          (forall bf fr, In bf (ow_files ow) -> In fr (frames bf) ->
+             pointed Nn (bf_id bf) (fr_off fr) = true /\ thr <= lenN (fr_val fr)) /\
+          nid <= ow_next nid ow) as (F1 & F2 & F3 & F4 & F5 & F6).
+  { destruct ow as [w|]; cbn [OWInv ow_files ow_next] in *.
+    - destruct OI as [W1 W2 W3 W4 W5 W6 W7 W8 W9]. repeat split; auto; try lia.
+      + apply (W2 bf H).
+      + specialize (W2 bf H). lia.
+      + apply (W4 bf H).
+      + apply (W4 bf H).
+      + apply (W9 bf fr H H0).
+    - subst Nn. repeat split; try (intros; contradiction); try constructor; lia. }
+  split; [|split; [|split; [|split]]].
+  - apply (with_merge_inv d v tids (split out') (gc_of_log log) (ow_files ow) (dead_ids v) nid
+                          (ptrs log) [] (ptrs out ++ tptrs R) Nn).
+    + exact I.
+    + exact IB.
+    + apply (SP out').
+    + apply (SP out').
+    + intros t e Ht He. pose proof (split_ok_in _ _ _ _ _ SP Ht He) as Ho.
+      destruct (WF e Ho) as [[Hin NM]|H]; [|exact H].
+      destruct (cstream_replace_keeps_seq _ _ _ _ _ _ HR e Hin) as [Hl|(e0 & t0 & v0 & _ & _ & Hf & ->)].
+      * destruct (merge_input_in _ _ _ Hl) as (t' & Ht' & He'). apply (bi_wf _ _ I t' e Ht' He').
+      * unfold adapt in Hf. destruct (uf e0); try discriminate; inversion Hf; subst; try reflexivity.
+        cbn in NM. discriminate.
+    + exact PV.
+    + rewrite (split_ok_tptrs _ _ _ SP). rewrite app_assoc. apply Permutation_app_tail. exact PP.
+    + exact F1.
+    + intros bf HI. destruct (F2 bf HI) as (A & _ & C). auto.
+    + exact F3.
+    + exact F4.
+    + intros bf fr Hb Hf. apply (F5 bf fr Hb Hf).
+    + intros f. apply gtot_of_log.
+    + intros f Hf. eapply dead_ids_below; eauto.
+    + intros p Hp Hd. apply in_dead_ids in Hd. destruct Hd as (bf & HI & DD & E).
+      apply (dead_no_ptr d v bf p I POS HI DD); [|now symmetry].
+      eapply Permutation_in; [apply Permutation_sym; exact PV|]. apply in_or_app. right. exact Hp.
+    + intros p [].
+  - destruct (with_merge_aux v tids (split out') (gc_of_log log) (ow_files ow) (dead_ids v)
+                nid (ow_next nid ow) IB F6) as (A & _); [|exact A].
+    intros bf HI. apply (F2 bf HI).
+  - exact F6.
+  - intros TP.
+    destruct (with_merge_aux v tids (split out') (gc_of_log log) (ow_files ow) (dead_ids v)
+                nid (ow_next nid ow) IB F6) as (_ & B & _); [intros bf HI; apply (F2 bf HI)|].
+    apply B; [exact POS|]. intros bf fr Hb Hf. destruct (F5 bf fr Hb Hf) as [_ G]. lia.
+  - destruct (with_merge_aux v tids (split out') (gc_of_log log) (ow_files ow) (dead_ids v)
+                nid (ow_next nid ow) IB F6) as (_ & _ & C & _); [intros bf HI; apply (F2 bf HI) | exact C].
+Qed.
